@@ -102,6 +102,19 @@ def scan_items(pc, E):
                        % (('; FOUND: %s' % bad[:3]) if bad else ''), extra={'found': [list(x) for x in found]})
         it.by = 'evaluation'
         pc.add_item(it)
+    # objects created once per class (class-level mutables, attrs defaults, mutable parameter defaults) are shared
+    # by every instance and every request
+    for rel, cls in (('clastic/application.py', 'DispatchState'), ('clastic/application.py', 'Application'),
+                     ('clastic/route.py', 'BoundRoute'), ('clastic/route.py', 'Route'), ('clastic/route.py', 'NullRoute'),
+                     ('clastic/errors.py', 'ErrorHandler'), ('clastic/errors.py', 'HTTPException')):
+        if rel not in trees:
+            continue
+        found = W.class_level_mutables(trees[rel], cls)
+        it = Item('C12.T/no-shared-mutable-defaults/%s' % cls, 'T', [], z3.BoolVal(not found),
+                  note='%s has no class-level mutable object, mutable attrs default or mutable parameter default%s'
+                       % (cls, ('; FOUND: %s' % found[:3]) if found else ''))
+        it.by = 'evaluation'
+        pc.add_item(it)
     # the id counter is one module-level itertools.count()
     ok = False
     t = trees.get('clastic/application.py')
